@@ -87,7 +87,7 @@ structure GAEC where
   aeCode : Option Nat
   transportFlags : Option Nat
   ip : Bytes
-  deriving Repr, Inhabited
+  deriving Repr, Inhabited, DecidableEq
 
 @[ext] structure GMM where
   ts : Option Ts := none
